@@ -285,3 +285,45 @@ def size_schedules(rng, props, n_pack, full):
             sc.heal_rounds(1, 300, live=False)
             out.append(sc.s)
     return out
+
+
+# ---------------------------------------------------------------------------------------------------------------
+# C12: sequences of public API calls
+# ---------------------------------------------------------------------------------------------------------------
+def api_schedules(rng, props, n, max_len=25, local=True):
+    out = []
+    for i in range(n):
+        tiny = rng.random() < 0.5
+        chans = [chan(0, "RO", maxmem=(10 if tiny else 100000)), chan(1, "U", maxmem=(10 if tiny else 100000))]
+        ids = [1, 2]
+        cfg = {"conns": ids, "sc": chans, "cs": chans, "budget": 60000, "seqbase": 0, "midbase": 0, "props": props, "manual": rng.random() < 0.7}
+        sc = Sched("api-%d" % i, cfg)
+        for _ in range(rng.randint(3, max_len)):
+            c = rng.choice(ids)
+            r = rng.random()
+            if r < 0.30:
+                calls = ["add_connection", "remove_connection", "disconnect", "disconnect_all", "set_connected", "set_connecting",
+                         "disconnect_due_to_transport"]
+                if local:
+                    calls += ["new_local_client", "disconnect_local_client", "process_local_client"]
+                sc.add(a="api", conn=c, side="S", call=rng.choice(calls))
+            elif r < 0.45:
+                sc.add(a="api", conn=c, side="C", call=rng.choice(["disconnect", "disconnect_due_to_transport", "set_connected", "set_connecting"]))
+            elif r < 0.62:
+                sc.add(a="get_event")
+            elif r < 0.74:
+                sc.send(c, rng.choice("SC"), rng.choice([0, 1]), rng.choice([0, 4, 8, 11]))
+            elif r < 0.82:
+                sc.add(a="flush", conn=c, side=rng.choice("SC"))
+            elif r < 0.90:
+                sc.add(a="deliver", conn=c, to=rng.choice("SC"), sel=0, keep=rng.random() < 0.3)
+            elif r < 0.95:
+                sc.add(a="recv", conn=c, side=rng.choice("SC"), ch=rng.choice([0, 1]))
+            elif r < 0.98:
+                sc.add(a="hostile", conn=c, to=rng.choice("SC"), hex=rng.choice(["ff00000000", W.small_reliable(5, 9, []).hex(), ""]), shape="bad", ctx="api")
+            else:
+                sc.add(a="update", conn=(0 if rng.random() < 0.5 else c), side=("S" if rng.random() < 0.5 else "C"), dt=300)
+        for _ in range(6):
+            sc.add(a="get_event")
+        out.append(sc.s)
+    return out
